@@ -319,3 +319,19 @@ SPECS['C11'] = dict(
     quick=dict(workers=16, cases=200, size=100, timeout=1500, opts={'maxops': 50}),
     thorough=dict(workers=16, cases=6000, size=100, timeout=7200, opts={'maxops': 250}),
 )
+
+SPECS['C06'] = dict(
+    kind='native', drivers=['p_c06.cpp'], with_lib=True, **_DAEMON,
+    level='exploration',
+    technique='fault-injection enumeration over generated command histories (rapidcheck): process death or one failing call at every checkpoint system-call boundary of the unmodified echsd.c, followed by an actual reload in a fresh process',
+    level_text=('Same harness as C04; openat/write/close/renameat of the checkpoint path are interposed and numbered. For every generated history the session is first run without fault, then re-run once per '
+                '(system call k, kind in {process dies, ENOSPC, EIO}) for ALL k of the history. After each run every echsq_<uid>.ics in the spool must be a complete calendar, and a fresh process that '
+                'reloads the spool must hold, per user, exactly the tasks (UID and owner) acknowledged as of the last completed checkpoint (or as of that user\'s own last completed rename when the '
+                'interrupted checkpoint got that far); after a clean shutdown exactly the acknowledged state.'),
+    level_note='death of the process, not of the machine: durability of renamed files across power loss (fsync) is outside the property and the harness',
+    rule=('history = 3..30 (thorough 80) ops of 3 users over 8 UIDs each: add/replace (1..3 events, plain/MAX-SIMUL/long DESCRIPTION/mail attributes), cancel, CHK (timer checkpoint), GET /queue, final SHUT or CHK; '
+          '1 in 6 histories floods the 16-slot dirty set; every history is run under every fault point (evidence.extra.fault_runs counts sessions); non-trivial = the history has >= 8 checkpoint system calls'),
+    assumptions=['tasks are YEARLY rules in the future (no retirement during the history)', 'a checkpoint operation that saw a failing call is not counted as completed'],
+    quick=dict(workers=16, cases=5, size=100, timeout=1500, opts={'maxops': 24, 'kinds': 2}),
+    thorough=dict(workers=16, cases=400, size=100, timeout=7200, opts={'maxops': 80}),
+)
